@@ -5,7 +5,7 @@ HOOK_COMMITS = [
 ENGINES = [
     {"name": "mir2smt", "path": "lib/mir2smt_core.py", "serves_properties": ["C15", "C20"],
      "kind_free_text": "nightly MIR dump of /repo crates -> SMT (z3 5.1 Int encoding with sign-case split; bit-vector cross-check) for loop-free integer functions at full machine width; translator validated against the real functions on concrete vectors every run"},
-    {"name": "kani", "path": "harness/", "serves_properties": ["C01", "C02", "C04", "C06", "C08", "C09", "C10", "C11", "C12", "C13", "C14", "C15", "C16", "C20"],
+    {"name": "kani", "path": "harness/", "serves_properties": ["C01", "C02", "C06", "C08", "C09", "C10", "C11", "C12", "C13", "C14", "C15", "C16", "C20"],
      "kind_free_text": "Kani 0.68 / CBMC 6.11 / cadical bounded model checking of the compiled /repo crates (harness crates with path dependencies on /repo, rebuilt from the working tree on every run)"},
 ]
 NOTES = ("Every check is `./vf check <ID>`: regenerates harness sources / dispatch tables from /repo, compiles the harness crates "
@@ -24,12 +24,6 @@ CHECKS = {
         "note": "State is constructed directly on the stack (8-slot value stack, 4-point zones); whole-font drawing, programs longer than 2 instructions, the CFF hinter, the auto-hinter, colour painting beyond C13 and the entire IFT client are outside the claim.",
         "technique": "solver-based bounded model checking (Kani/CBMC SAT) of the compiled /repo code, one query per opcode generated from the Opcode enum",
     },
-    "C04": {
-        "text": "Offset-free write-fonts tables (Maxp, Hhea, Os2 in every version) are serialised with the real write_into and re-read: every getter equals the field written, version-dependent fields present exactly when required, to_owned_table gives back the value, re-serialisation gives the same bytes.",
-        "design_ref": "DESIGN.md §3 C04",
-        "note": "Through an in-crate hook that bypasses the packing graph; any value with a non-null offset (most layout/colour/name structure), hence 'every offset resolves to the subtable written', is NOT decided. RandomState::new is stubbed.",
-        "technique": "solver-based bounded model checking (Kani/CBMC SAT) of the compiled /repo code (in-crate harness, RandomState stub)",
-    },
     "C06": {
         "text": "Checksum arithmetic vs the spec for every byte string <= 12 bytes, additivity over padded concatenation, the head checksum-adjustment identity, round4/padding arithmetic, and FontRef::table_data on a symbolic 3-record directory.",
         "design_ref": "DESIGN.md §3 C06",
@@ -37,7 +31,7 @@ CHECKS = {
         "technique": "solver-based bounded model checking (Kani/CBMC SAT) of the compiled /repo code against a spec transcription",
     },
     "C08": {
-        "text": "cmap format 4 and 12 lookup vs a transcription of the OpenType spec for EVERY code point on symbolic subtables (<= 3 segments / groups), iterators ascend and agree with lookup, first-subtable-wins selection; the format-4 builder kernel for 1 (thorough: 2) symbolic mappings answers exactly the mapping given.",
+        "text": "cmap format 4 and 12 lookup vs a transcription of the OpenType spec for EVERY code point on symbolic subtables (<= 3 segments / groups), iterators ascend and agree with lookup, first-subtable-wins selection; thorough tier attempts the format-4 builder kernel (1, 2 and a 4-mapping shape) under a 30 GB cap.",
         "design_ref": "DESIGN.md §3 C08",
         "note": "from_mappings' own sort/dedup, format 12 building, format 14, skrifa Charmap and more than 3 segments are outside the claim; reader and writer halves compose by argument, not in one query.",
         "technique": "solver-based bounded model checking (Kani/CBMC SAT) of the compiled /repo code against a spec transcription",
@@ -49,9 +43,9 @@ CHECKS = {
         "technique": "solver-based bounded model checking (Kani/CBMC SAT) of the compiled /repo code against a spec transcription",
     },
     "C10": {
-        "text": "Packed point numbers and packed deltas decode exactly as the spec's algorithm on every byte string <= 8/10 bytes; PackedDeltas written by write-fonts read back unchanged (<= 4 values).",
+        "text": "Packed point numbers and packed deltas decode exactly as the spec's algorithm on every byte string <= 8/10 bytes.",
         "design_ref": "DESIGN.md §3 C10",
-        "note": "IUP optimisation (f64 dynamic program), GlyphVariations building and drawing at a location are outside the claim.",
+        "note": "Reader half only: the packed writers (TableWriter is out of CBMC's reach, see C04), IUP optimisation (f64 dynamic program), GlyphVariations building and drawing at a location are outside the claim.",
         "technique": "solver-based bounded model checking (Kani/CBMC SAT) of the compiled /repo code against a spec transcription",
     },
     "C11": {
@@ -101,6 +95,7 @@ CHECKS = {
     },
 }
 NOT_APPLICABLE = {
+    "C04": "attempted and withdrawn: every write path goes through TableWriter's Vec<u8>/HashMap; the smallest query (Hhea: write_into -> bytes -> read -> compare getters, RandomState stubbed, no packing graph) exhausted 25 GB in CBMC and was OOM-killed at 58 GB; dump_table itself (packing graph) was already out of reach",
     "C03": "oracle is the FreeType C library behind FFI (fauntlet); it cannot be executed symbolically and no formal spec of its hinting exists — the fixed-point primitives it shares with skrifa are decided under C15/C20",
     "C05": "Graph::pack_objects is BTreeMap/HashMap/BinaryHeap/VecDeque over heap nodes and its interesting paths need > 64 KiB of objects; even dump_table(Maxp) exceeded 6 min / 4 GB in CBMC",
     "C07": "quantifies over thread interleavings, hash seeds and process history: Kani has no threads and does not model RandomState seeding; the code is the packing graph of C05",
